@@ -57,7 +57,7 @@ def r1_forwarding(ctx) -> None:
 
 def run(ctx) -> None:
     ctx.rule("C15.R1", "every override in hugr.build uses each parameter that the implementation it overrides uses", floor=2)
-    ctx.rule("C15.R2", "TrackedDfg.add builds the node by add_op(com.op, *wires, metadata=metadata) with ints replaced by tracked wires in order", floor=3)
+    ctx.rule("C15.R2", "TrackedDfg.add builds the node by add_op(com.op, *wires, metadata=metadata) with ints replaced by tracked wires in order", floor=2)
     ctx.rule("C15.R3", "after the node exists each integer argument's index is rebound to the new node's output at the argument's position", floor=2)
     ctx.rule("C15.R4", "tracked is an append-only list: untrack sets None, no removal; outputs filter None in index order; bad indices raise IndexError", floor=7)
     r1_forwarding(ctx)
@@ -65,6 +65,39 @@ def run(ctx) -> None:
     tracked_index_rules(ctx)
     from .. import lints
     lints.arm(ctx)
+
+
+class _IntArms(ast.NodeTransformer):
+    """`A if isinstance(x, int) else B` -> B   (where no x is an int)"""
+    def visit_IfExp(self, node):
+        self.generic_visit(node)
+        t = node.test
+        if isinstance(t, ast.Call) and u(t.func) == "isinstance" and len(t.args) == 2 and u(t.args[1]) == "int":
+            return node.orelse
+        return node
+
+
+def _under_no_ints(fn, call, com: str) -> bool:
+    """is `call` on the branch of `if any(isinstance(c, int) for c in com.incoming)` where the test failed"""
+    def has(stmts):
+        return any(call is n for s_ in stmts for n in ast.walk(s_))
+
+    def rec(stmts, no_ints):
+        for s_ in stmts:
+            if isinstance(s_, ast.If):
+                t, neg = s_.test, False
+                while isinstance(t, ast.UnaryOp) and isinstance(t.op, ast.Not):
+                    t, neg = t.operand, not neg
+                e = tmatch(t, T("any((isinstance(L_v, int) for L_v in E_com.incoming))"))
+                is_test = e is not None and e["E_com"] == com
+                if has(s_.body):
+                    return rec(s_.body, no_ints or (is_test and neg))
+                if has(s_.orelse):
+                    return rec(s_.orelse, no_ints or (is_test and not neg))
+            elif has([s_]):
+                return no_ints
+        return no_ints
+    return rec(fn.body, False)
 
 
 def tracked_add_rules(ctx, R2="C15.R2", R3="C15.R3") -> None:
@@ -75,33 +108,40 @@ def tracked_add_rules(ctx, R2="C15.R2", R3="C15.R3") -> None:
     nf = NF(prog)
     # ---- R2
     add_o, _, _ = ctx.locate(f"{TD}.add")
-    add = ctx.cfn(f"{TD}.add")
+    add = ctx.cfn(f"{TD}.add", supers=True, inline=("_to_wires",))      # as TrackedDfg runs it: an inherited skeleton with the resolution hook overridden is seen through
     base_add = ctx.cfn("hugr.build.dfg.DfBase.add")
     ops_calls = calls_in(add, "add_op")
     base_calls = calls_in(base_add, "add_op")
-    if len(ops_calls) != 1 or len(base_calls) != 1:
-        ctx.broken("add: expected exactly one add_op call in TrackedDfg.add and DfBase.add")
-    call, bcall = ops_calls[0], base_calls[0]
+    if not ops_calls or len(base_calls) != 1:
+        ctx.broken("add: expected an add_op call in TrackedDfg.add and exactly one in DfBase.add")
+    bcall = base_calls[0]
     com = add.args.args[1].arg
     env = Env(td.module, td, {"self": sym("self"), com: sym(com), "metadata": sym("metadata")}, {sym("self"): td})
-    try:
-        a0 = nf.ev(call.args[0], env) if call.args else None
-        rest = [nf.ev(a.value if isinstance(a, ast.Starred) else a, env) for a in call.args[1:]]
-    except Opaque as e:
-        a0, rest = None, []
-        ctx.note(f"C15.R2: add_op arguments not normalisable: {e}")
-    starred = [isinstance(a, ast.Starred) for a in call.args[1:]]
-    want_wires = nf.ev(ast.parse(f"(self.tracked_wire(inc) if isinstance(inc, int) else inc for inc in {com}.incoming)", mode="eval").body, env)
-    ok = a0 == ("attr", sym(com), "op") and len(rest) == 1 and starred == [True] and rest[0] == want_wires
-    ctx.check(ok, R2, "TrackedDfg.add: node construction", file, call.lineno,
-              "the node must be created by add_op(com.op, *wires) where wires are com.incoming with each int replaced by the wire currently tracked at it, in order", call,
-              expected=f"add_op({com}.op, *{show(want_wires)})", found=f"add_op({show(a0) if a0 else ''}, " + ", ".join(show(r) for r in rest) + ")")
-    # keyword arguments forwarded like the base does
     bkw = {k.arg: u(k.value) for k in bcall.keywords}
-    kw = {k.arg: u(k.value) for k in call.keywords}
-    ctx.check(kw == bkw, R2, "TrackedDfg.add: same keyword arguments as Dfg.add", file, call.lineno,
-              f"Dfg.add forwards {bkw} to add_op; the tracked override must forward the same (metadata given for the node is otherwise lost)", call,
-              expected=str(bkw), found=str(kw))
+    for call in ops_calls:
+        # (a call on the branch where no argument is an index: `X if isinstance(c, int) else c` is c there, on both sides)
+        no_ints = _under_no_ints(add, call, com)
+
+        def arms(e):
+            return _IntArms().visit(ast.fix_missing_locations(e)) if no_ints else e
+        try:
+            a0 = nf.ev(call.args[0], env) if call.args else None
+            rest = [nf.ev(arms(a.value if isinstance(a, ast.Starred) else a), env) for a in call.args[1:]]
+        except Opaque as e:
+            a0, rest = None, []
+            ctx.note(f"C15.R2: add_op arguments not normalisable: {e}")
+        starred = [isinstance(a, ast.Starred) for a in call.args[1:]]
+        want_wires = nf.ev(arms(ast.parse(f"(self.tracked_wire(inc) if isinstance(inc, int) else inc for inc in {com}.incoming)", mode="eval").body), env)
+        ok = a0 == ("attr", sym(com), "op") and len(rest) == 1 and starred == [True] and rest[0] == want_wires
+        ctx.check(ok, R2, "TrackedDfg.add: node construction", file, call.lineno,
+                  "the node must be created by add_op(com.op, *wires) where wires are com.incoming with each int replaced by the wire currently tracked at it, in order", call,
+                  expected=f"add_op({com}.op, *{show(want_wires)})", found=f"add_op({show(a0) if a0 else ''}, " + ", ".join(show(r) for r in rest) + ")")
+        # keyword arguments forwarded like the base does
+        kw = {k.arg: u(k.value) for k in call.keywords}
+        ctx.check(kw == bkw, R2, "TrackedDfg.add: same keyword arguments as Dfg.add", file, call.lineno,
+                  f"Dfg.add forwards {bkw} to add_op; the tracked override must forward the same (metadata given for the node is otherwise lost)", call,
+                  expected=str(bkw), found=str(kw))
+    call = ops_calls[0]
     tw = td.methods.get("_to_wires")
     if tw is not None:
         pname = tw.args.args[1].arg
@@ -239,7 +279,10 @@ def tracked_index_rules(ctx) -> None:
              [["self.set_outputs(*(c0 for c0 in self.tracked if c0 is not None))"],
               ["self.set_indexed_outputs(*(c0 for c0, c1 in enumerate(self.tracked) if c1 is not None))"]],
              "outputs set from tracked indices are the still-tracked wires in index order")
-    need(ctx, R, f"{TD}.set_indexed_outputs", "TrackedDfg.set_indexed_outputs", ["self.set_outputs(*self._to_wires(L_in))"], "indexed outputs resolve ints through the tracked wires")
+    # (the resolution helper, whatever it is called and whichever class provides it, is seen through)
+    need(ctx, R, f"{TD}.set_indexed_outputs", "TrackedDfg.set_indexed_outputs",
+         ["self.set_outputs(*(self.tracked_wire(c0) if isinstance(c0, int) else c0 for c0 in L_in))"], "indexed outputs resolve ints through the tracked wires",
+         inline=("_to_wires",), supers=True)
     init = fn_of("__init__")
     ps = [p for p in ctx.paths(f"{TD}.__init__") if p.kind != "raise"]
     ok = bool(ps)
